@@ -899,3 +899,11 @@ M("C20-unique-name-one-sided", "C20", "src/interrogatedb/interrogateDatabase.cxx
   "  } else if (wrapper_hash_name < name) {\n    return binary_search_wrapper_hash(begin, mid, wrapper_hash_name);\n\n  } else {\n    return mid->index_offset;\n  }",
   "  } else if (wrapper_hash_name.size() < name.size()) {\n    return binary_search_wrapper_hash(begin, mid, wrapper_hash_name);\n\n  } else {\n    return mid->index_offset;\n  }",
   expect="R20.8|binary_search_wrapper_hash|hit-only-on-equal-names")
+
+M("C04-ignorefile-by-basename", "C04", "src/interrogate/interrogateBuilder.cxx",
+  "       in_ignorefile(cpptype->_file._filename_as_referenced))) {", "       in_ignorefile(cpptype->_file._filename.get_basename()))) {",
+  expect="R04.8|InterrogateBuilder::define_struct_type|in_ignorefile")
+M("C04-benign-ignorefile-local", "C04", "src/interrogate/interrogateBuilder.cxx",
+  "  if (!forced &&\n      (cpptype->_file._source != CPPFile::S_local ||\n       in_ignorefile(cpptype->_file._filename_as_referenced))) {",
+  "  const Filename &referenced_as = cpptype->_file._filename_as_referenced;\n  if (!forced &&\n      (cpptype->_file._source != CPPFile::S_local ||\n       in_ignorefile(referenced_as))) {",
+  benign=True)
